@@ -128,7 +128,22 @@ def reference_candidates(g, raw_cov, cn_solution):
     return out, passes, count
 
 
-def check_major_call(res, g, raw_cov, cn, call, desc, planted=None, noise_free=False):
+def silent_conflicts(g, copies, cov):
+    """(copy, site) pairs where a planted copy shows a silent non-insertion variant at the site of a
+    supported core variant it does not carry itself (the major model expects reference there)."""
+    core_sites = {m.pos for a in g.alleles.values() for m in a.func_muts if m.op[:3] != "ins"}
+    n = 0
+    for c in copies:
+        a, mi = c[0], c[1]
+        core_here = {m.pos for m in g.alleles[a].func_muts if m.op[:3] != "ins"}
+        for m in g.alleles[a].minors[mi].neutral_muts:
+            if m.op[:3] != "ins" and m.pos in core_sites and m.pos not in core_here and \
+                    any(fm.pos == m.pos and cov[fm] > 0 for b in g.alleles.values() for fm in b.func_muts):
+                n += 1
+    return n
+
+
+def check_major_call(res, g, raw_cov, cn, call, desc, planted=None, noise_free=False, planted_copies=None):
     """All clauses of the property for one captured solve_major_model call."""
     from aldy.gene import Mutation
 
@@ -209,8 +224,12 @@ def check_major_call(res, g, raw_cov, cn, call, desc, planted=None, noise_free=F
     if noise_free and planted is not None:
         pk = tuple(sorted(planted))
         hit = [sc for (a, n), sc in reported.items() if a == pk and not n]
-        res.check("planted_reported_zero_error", bool(hit) and abs(hit[0]) <= TOL,
+        conflicts = silent_conflicts(g, planted_copies, cov) if planted_copies else 0
+        ok0 = bool(hit) and abs(hit[0]) <= TOL
+        res.check("planted_reported_zero_error", ok0,
                   "noise-free evidence: the planted combination is not reported with error zero",
+                  mech="silent-variant-at-core-site" if (not ok0 and hit and conflicts
+                                                         and abs(hit[0] - conflicts) <= TOL) else None,
                   planted=pk, reported=[[list(k[0]), v] for k, v in list(reported.items())[:4]], **desc)
     return len(table) >= 2
 
@@ -262,7 +281,8 @@ def _opt_case(res, rng, seed_desc):
         res.check("empty_when_no_candidate", sols == [], "no candidate for a configuration but solutions reported", **desc)
         return None
     nt = check_major_call(res, g, cov, cn, cap.calls[0], desc,
-                          planted=[c[0] for c in copies], noise_free=(eps == 0 and not extra))
+                          planted=[c[0] for c in copies], noise_free=(eps == 0 and not extra),
+                          planted_copies=copies)
     res.check("estimate_returns_model_result", sols is cap.calls[0][4] or sols == cap.calls[0][4],
               "estimate_major does not return the model's solutions")
     if nt and (eps > 0 or any(c[0] != "1" for c in copies)):
